@@ -76,6 +76,8 @@ func kindOf(s ast.Stmt) string {
 	return ""
 }
 
+var kinds = map[string]bool{}
+
 type rewriter struct {
 	file    string
 	fn      string
@@ -97,11 +99,11 @@ func (r *rewriter) yield(kind string) ast.Stmt {
 func (r *rewriter) block(list []ast.Stmt) []ast.Stmt {
 	var out []ast.Stmt
 	for _, s := range list {
-		if k := kindOf(s); k != "" {
+		if k := kindOf(s); k != "" && (len(kinds) == 0 || kinds[k]) {
 			r.skel = append(r.skel, k)
 			out = append(out, r.yield(k))
 		}
-		if g, ok := s.(*ast.GoStmt); ok {
+		if g, ok := s.(*ast.GoStmt); ok && (len(kinds) == 0 || kinds["go"]) {
 			r.count["go"]++
 			site := fmt.Sprintf("%s:%s:go#%d", r.file, r.fn, r.count["go"])
 			r.skel = append(r.skel, "go")
@@ -159,7 +161,13 @@ func main() {
 	funcs := flag.String("funcs", "", "comma separated function names, e.g. Read,(*Buffer).Write; empty = all")
 	cos := flag.String("cosched", "github.com/pion/transport/v3/verifshim/cosched", "import path of the scheduler shim")
 	skeleton := flag.Bool("skeleton", false, "print the synchronisation skeletons instead of the rewritten source")
+	kindList := flag.String("kinds", "", "comma separated operation kinds to instrument (lock,select,send,recv,wait,go); empty = all")
 	flag.Parse()
+	for _, k := range strings.Split(*kindList, ",") {
+		if k != "" {
+			kinds[k] = true
+		}
+	}
 	fset := token.NewFileSet()
 	f, err := parser.ParseFile(fset, *file, nil, parser.ParseComments)
 	if err != nil {
